@@ -33,10 +33,10 @@ def entry_pools(rng, npools):
     return pools
 
 
-def walk_versions(rng, pool, nversions):
+def walk_versions(rng, pool, nversions, full_start=False):
     """returns list of versions; version = list of (entry index in pool, alt index, active)"""
     k = len(pool)
-    start = rng.sample(range(k), rng.randint(1, max(1, k - 1)))
+    start = list(range(k)) if full_start else rng.sample(range(k), rng.randint(1, max(1, k - 1)))
     cur = [(e, 0, True) for e in start]
     used = set(start)                      # ids ever present (never re-added once removed)
     seen, out = set(), []
@@ -84,7 +84,7 @@ def generate(outdir, seed, npools, nversions):
     types, meta = [], []
     for pi, pool in enumerate(pools):
         hk = rng.choice([("hash", rng.choice([0, 5, 127, 128, 1 << 40])), ("ns", "verif.pool%d" % pi)])
-        versions = walk_versions(rng, pool, nversions)
+        versions = walk_versions(rng, pool, nversions, full_start=(pi == 0))      # the first version of the first pool holds every candidate entry
         for vi, ver in enumerate(versions):
             ents = [(pool[e]["alts"][a], pool[e]["id"], act) for (e, a, act) in ver]
             nm = "P%dV%d" % (pi, vi)
